@@ -2,6 +2,7 @@ import GoImap.Model.ClientConc
 import GoImap.Lemmas.ClientConcTags
 import GoImap.Lemmas.ClientConcOnce
 import GoImap.Lemmas.ClientConcKeep
+import GoImap.Lemmas.ClientConcSend
 /-!
   C13 — the client is safe for concurrent use. Property theorems about `GoImap.ClientConc`
   (Model/ClientConc.lean: one step per c.mutex / c.encMutex critical section or channel operation,
@@ -18,6 +19,8 @@ import GoImap.Lemmas.ClientConcKeep
                              has been completed exactly once
     complete_exactly_once    when every thread has finished and pendingCmds is empty, every registered
                              command has been completed exactly once
+    completion_never_blocks  (variants that initialise before registering, e.g. `fixed`) the send of a
+                             completion always finds a channel that exists and whose buffer is free
     guarded_fields           lockset discipline of the model's field-access table
   Counterexamples of the unrepaired behaviours (`Legacy.*`), by `decide`:
     f21_counterexample, f21_lockset_counterexample, f26_idle_counterexample,
@@ -26,9 +29,11 @@ import GoImap.Lemmas.ClientConcKeep
   Partial / not proved (validated by the oracle on every enforced schedule and -race workload):
     * that pendingCmds is empty once every thread has finished (the hypothesis of
       complete_exactly_once); the driver checks it on every schedule it replays ("done-but-pending")
-    * no_stuck_closer (Close returns in every schedule): not proved; the Legacy counterexample is
-      f21_counterexample (the closer and the reader are among the blocked threads there); the oracle
-      clause `close-never-returns` judges every run
+    * no_stuck_closer (Close returns in every schedule): proved in part — completion_never_blocks
+      (the sends of completions, on which the reader and hence Close hung in F21, are never blocked in
+      the repaired code); that the reader always reaches `close(decCh)` is not proved; the Legacy
+      counterexample is f21_counterexample (closer and reader are among the blocked threads there);
+      the oracle clause `close-never-returns` judges every run
     * contreq_fifo for all schedules: not proved; proved only as the counterexample of the
       unrepaired order (f26_idle_counterexample) and the hang of the naive repair
       (f26_reorder_only_counterexample); the oracle clause `continuation-request-misrouted` judges
@@ -158,6 +163,28 @@ theorem complete_exactly_once (v : Variant) (sc : Scenario) (sched : List Nat) :
     have : toks c (s.prog t) = 1 := ht
     rw [hq.1 t] at this; cases this
   · exact h3
+
+
+/-- part of no_stuck_closer: in the repaired code (any variant that initialises before registering)
+    a completion is never blocked, so neither the reader nor Close can hang the way F21 did.
+    Whenever the next instruction of a thread is the send of a completion, the `done` channel it
+    loaded is not nil (`b = true`) and nothing has been sent on it (its buffer of capacity 1 is
+    free); the channel of every registered command exists. -/
+theorem completion_never_blocks (v : Variant) (hv : v.initFirst = true) (sc : Scenario) (sched : List Nat) :
+    let s := run v (init v sc) sched
+    (∀ t c r b rest, s.prog t = .send c r b :: rest → b = true ∧ (s.cmd c).sent = 0) ∧
+    (∀ c, (s.cmd c).registered = true → (s.cmd c).chanInit = true) := by
+  intro s
+  obtain ⟨hsend, honce⟩ := sendInv_run v hv sched (init v sc) (once_init v sc) (sendInv_init v sc)
+  refine ⟨fun t c r b rest hs => ⟨?_, ?_⟩, hsend.init⟩
+  · have := hsend.ok t
+    rw [hs] at this
+    simp only [sendOK, List.all_cons, Bool.and_eq_true] at this
+    exact this.1
+  · have ht : 1 ≤ toks c (s.prog t) := by rw [hs, toks_cons]; simp [isTok]
+    exact (honce.tok c t ht).1
+
+example : fixed.initFirst = true := rfl
 
 /-! ### the lockset discipline of the model's field-access table -/
 
